@@ -2243,8 +2243,18 @@ class Workflow(Trellis):
     # Glob patterns
     #
 
-    def nglob_registrations(self) -> Iterator[tuple[int, NamedGlob, Step]]:
+    def nglob_registrations(
+        self, *, detached: bool = False
+    ) -> Iterator[tuple[int, NamedGlob, Step]]:
         """Iterate over the patterns registered by all attached steps, with their context.
+
+        Parameters
+        ----------
+        detached
+            Iterate over the registrations of the detached steps instead.
+            A detached step keeps its state, hash and recorded matches,
+            and returns to the workflow as it is when it is declared again unchanged,
+            so its matches must be kept up to date as well.
 
         Yields
         ------
@@ -2258,7 +2268,8 @@ class Workflow(Trellis):
         """
         sql = (
             "SELECT node.i, label, nglob.i, data FROM node "
-            "JOIN nglob ON node.i = nglob.node WHERE NOT node.detached"
+            "JOIN nglob ON node.i = nglob.node WHERE "
+            + ("node.detached" if detached else "NOT node.detached")
         )
         for node_i, label, nglob_i, data in self.db.execute(sql):
             yield (
@@ -2523,7 +2534,8 @@ class Workflow(Trellis):
         """
         if deleted & updated:
             raise ConsistencyError("Deleted and updated paths cannot overlap.")
-        for i, ng, step in self.nglob_registrations():
+        registrations = [*self.nglob_registrations(), *self.nglob_registrations(detached=True)]
+        for i, ng, step in registrations:
             # A step becomes pending when one of its patterns loses a deleted file as a match,
             # or could gain a new match among the updated files.
             evolved = ng.will_change(deleted, updated)
